@@ -62,7 +62,10 @@ type Sched struct {
 	Alts   [][]string
 	Trace  []string
 
-	Hub         *ctl.Hub // to find the goroutine of background threads
+	Hub *ctl.Hub // to find the goroutine of background threads
+	// ParkAfter makes the return of every boundary call a scheduling point too, so that
+	// another thread can run between a call and the lock acquisition that follows it.
+	ParkAfter   bool
 	Watchdog    time.Duration
 	TimedOut    bool
 	Deadlock    bool
@@ -117,7 +120,20 @@ func (s *Sched) Before(ev *ctl.Event) (ctl.Decision, error) {
 func (s *Sched) After(ev *ctl.Event, err error) {
 	s.mu.Lock()
 	s.Trace = append(s.Trace, fmt.Sprintf("%s.%s(%s)=%s", ev.Thread, ev.Method, ev.Args, ev.Result))
+	t := s.threads[ev.Thread]
+	if t == nil || !s.ParkAfter {
+		s.mu.Unlock()
+		return
+	}
+	// second scheduling point: the call has returned, nothing that follows it (in
+	// particular no lock acquisition) has happened yet
+	t.st = parked
+	t.ev = *ev
+	t.grant = make(chan struct{})
+	g := t.grant
 	s.mu.Unlock()
+	s.signal()
+	<-g
 }
 
 // Go starts an operation thread. hub.Register is called inside the goroutine.
